@@ -222,7 +222,7 @@ WARM = {"views": 0, "plain": 0}
 
 def warm(g, full: bool = True) -> None:
     """What code does with a raster before deriving another one from it: looks at it (fills whatever the object caches lazily)."""
-    fs = [lambda: g.extent, lambda: g.boundingbox, lambda: g.resolution, lambda: hash(g), lambda: g.alignment, lambda: g.dimensions]
+    fs = [lambda: g.extent, lambda: g.boundingbox, lambda: g.resolution, lambda: hash(g), lambda: g.alignment, lambda: g.dimensions, lambda: g.boundary(2), lambda: g.boundary(3)]
     if full:  # the expensive looks (projected outlines, coordinate arrays, reprs) for a fifth of the parents
         fs += [lambda: g.geographic_extent, lambda: g.footprint("EPSG:4326", 2), lambda: repr(g), lambda: g.coordinates, lambda: g.center_pixel]
     for f in fs:
